@@ -1324,12 +1324,13 @@ where
 
 fn extract_prop_name(expr: Expr, computed: bool) -> PropName {
     match expr {
-        Expr::Ident(ident) => PropName::Ident(ident.into()),
+        // (`[key]: T` names the prop by the value of `key`, not "key")
+        Expr::Ident(ident) if !computed => PropName::Ident(ident.into()),
         Expr::Lit(Lit::Str(str)) => PropName::Str(str),
         Expr::Lit(Lit::Num(num)) => PropName::Num(num),
         Expr::Lit(Lit::BigInt(bigint)) => PropName::BigInt(bigint),
         _ => {
-            if computed {
+            if computed && !contains_jsx(&expr) {
                 PropName::Computed(ComputedPropName {
                     expr: Box::new(expr),
                     span: DUMMY_SP,
@@ -1402,4 +1403,20 @@ impl Visit for ThisSuperFinder {
     fn visit_getter_prop(&mut self, _: &GetterProp) {}
     fn visit_setter_prop(&mut self, _: &SetterProp) {}
     fn visit_method_prop(&mut self, _: &MethodProp) {}
+}
+
+/// A key copied from a type declaration is not traversed again: JSX in it would be left behind.
+fn contains_jsx(expr: &Expr) -> bool {
+    struct Finder(bool);
+    impl Visit for Finder {
+        fn visit_jsx_element(&mut self, _: &JSXElement) {
+            self.0 = true;
+        }
+        fn visit_jsx_fragment(&mut self, _: &JSXFragment) {
+            self.0 = true;
+        }
+    }
+    let mut finder = Finder(false);
+    expr.visit_with(&mut finder);
+    finder.0
 }
